@@ -353,6 +353,13 @@ func run(c *harness.Ctx, i int) {
 				c.Inconclusive("zstdcheck -c: %v %s", err, o)
 				return
 			}
+			// the leg is only worth something if the frame really has casync's shape: no content size, a window descriptor
+			fb, _ := os.ReadFile(out)
+			if cs, err := oracle.WalkZstdFrame(fb); err != nil || cs != -1 || len(fb) < 6 || fb[4]&0x20 != 0 {
+				c.Inconclusive("helper did not produce a streaming-style frame (content size %d, descriptor %x, %v)", cs, fb[4:6], err)
+				return
+			}
+			c.Count("streaming_frames_written", 1)
 		}
 		if !checkStore(c, "store of libzstd streaming-API frames (casync style)", store, false, want) {
 			return
